@@ -249,7 +249,12 @@ class Gen:
                 ilex = [('p', '('), G] + ilex + [G, ('p', ')')]
             lex = [('p', '-')] if op == '-' else [('kw', 'NOT')]
             self.features.add('unary:' + op)
-            return lex + [G] + ilex, T('UnaryOp', N('UnaryExpr', ('op', A('Neg' if op == '-' else 'Not')), ('term', it)))
+            tree = T('UnaryOp', N('UnaryExpr', ('op', A('Neg' if op == '-' else 'Not')), ('term', it)))
+            if ctx_level < 99 and self.rng.random() < 0.25:
+                # redundant parentheses around the whole unary expression (as an operand or on its own): `(-x) ** 2`
+                self.features.add('redundant-paren-unary')
+                return [('p', '('), G] + lex + [G] + ilex + [G, ('p', ')')], tree
+            return lex + [G] + ilex, tree
         _, row, l, r = e
         level, text, ctor, op = row
         llex, lt = self.print_expr(l, level)
